@@ -191,6 +191,8 @@ func genC11(t *rapid.T, c *core.Ctx) *c11Case {
 	pool := []string{"p0", "p1", "p2", "p3", "p4", "p5", "p6"}
 	kindOf := map[string]int{}
 	first := map[string]*model.Node{}
+	firstIdx := map[string]int{} // the branch that declared the property first
+	refBranch := map[int]bool{}  // branches given by reference to a definition
 	f := &model.File{RelPath: "prog.json", ID: "https://example.com/prog"}
 	comp := &model.Node{Kind: kind}
 	cc := &c11Case{file: f, comp: comp, kind: kind, overlap: "disjoint"}
@@ -211,7 +213,11 @@ func genC11(t *rapid.T, c *core.Ctx) *c11Case {
 			if prev, ok := first[name]; ok {
 				zeroLimit := (prev.Minimum != nil && *prev.Minimum == 0) || (prev.Maximum != nil && *prev.Maximum == 0)
 				// (a first-branch limit of 0 counts as unset for the merge: part of the same open finding)
-				if comp, ok := c11Complement(t, prev); ok && kind == model.KAllOf && !zeroLimit && rapid.IntRange(0, 2).Draw(t, "complement") == 0 {
+				leaks := refBranch[firstIdx[name]] && c.Avoid("allof.merge_writes_into_shared_definition")
+				if leaks {
+					c.ExcludedMap()["allof.merge_writes_into_shared_definition"]++
+				}
+				if comp, ok := c11Complement(t, prev); ok && kind == model.KAllOf && !zeroLimit && !leaks && rapid.IntRange(0, 2).Draw(t, "complement") == 0 {
 					// a later branch states what the first declarer leaves open (no keyword is stated twice,
 					// so the open first-wins finding does not apply)
 					node = comp
@@ -252,6 +258,7 @@ func genC11(t *rapid.T, c *core.Ctx) *c11Case {
 				kindOf[name] = rapid.IntRange(0, 3).Draw(t, "leafkind")
 				node = c11Leaf(t, kindOf[name])
 				first[name] = node
+				firstIdx[name] = i
 			}
 			b.Props = append(b.Props, model.Prop{Name: name, Node: node})
 			if rapid.IntRange(0, 9).Draw(t, "req") < 6 {
@@ -267,6 +274,7 @@ func genC11(t *rapid.T, c *core.Ctx) *c11Case {
 			c.ExcludedMap()["anyof.ref_branch_without_validators"]++
 			b.Required = []string{b.Props[0].Name}
 		}
+		refBranch[i] = byRef
 		if byRef {
 			dn := fmt.Sprintf("B%d", i)
 			f.Defs = append(f.Defs, model.Def{Name: dn, Node: b})
